@@ -240,9 +240,9 @@ def coqchk(prop):
 # ------------------------------------------------------------------------------------------------
 # pipeline: programs -> implementation / model / monitors
 
-SIZES = {"quick": dict(wf=150, fault=114, free=120, known=9, chains=25, chain_exh=3, perm_bases=70, perms=3, stub_bases=40, skel=2, names=False),
-         "thorough": dict(wf=3000, fault=1900, free=3000, known=60, chains=300, chain_exh=6, perm_bases=500, perms=4, stub_bases=400, skel=4, names=True),
-         "search": dict(wf=900, fault=570, free=900, known=30, chains=60, chain_exh=4, perm_bases=150, perms=3, stub_bases=120, skel=3, names=False)}
+SIZES = {"quick": dict(wf=150, fault=114, free=120, known=9, chains=25, chain_exh=3, perm_bases=70, perms=3, stub_bases=40, skel=2, names=False, tiny=1),
+         "thorough": dict(wf=3000, fault=1900, free=3000, known=60, chains=300, chain_exh=6, perm_bases=500, perms=4, stub_bases=400, skel=4, names=True, tiny=2),
+         "search": dict(wf=900, fault=570, free=900, known=30, chains=60, chain_exh=4, perm_bases=150, perms=3, stub_bases=120, skel=3, names=False, tiny=1)}
 
 
 def corpus_programs():
@@ -360,7 +360,7 @@ def pipeline(seed, tier):
         batch.append((ser(p), m))
     for p, m in gen.gen_chains_random(seed + 1, sz["chains"]) + gen.gen_chains_exhaustive(seed + 2, sz["chain_exh"]):
         batch.append((ser(p), m))
-    for p, m in gen.gen_skeletons(sz["skel"]) + (gen.gen_name_triples() if sz["names"] else []):
+    for p, m in gen.gen_skeletons(sz["skel"]) + (gen.gen_name_triples() if sz["names"] else []) + gen.gen_tiny(sz["tiny"]):
         batch.append((ser(p), m))
     # derived programs (C16: permutations; C17: stubbed bodies), linked to their base by index
     import random as _random
@@ -457,6 +457,55 @@ def impl_coverage(run):
             os.remove(os.path.join(run.dir, fn))
         except OSError:
             pass
+    with open(out_json, "w") as f:
+        json.dump(res, f)
+    return res
+
+
+def extraction_crosscheck(run, n):
+    """The same numeric summary of `run p` computed by vm_compute inside Coq and by the extracted
+    OCaml code, on the first n small programs of the batch: validates the extraction pipeline."""
+    import tocoq
+    out_json = os.path.join(run.dir, "xcheck-%d.json" % n)
+    if os.path.exists(out_json):
+        return json.load(open(out_json))
+    progs = [p for p in run.programs if len(p) < 2500][:n]
+    d = os.path.join(run.dir, "xcheck")
+    os.makedirs(d, exist_ok=True)
+    with open(os.path.join(d, "p.sexp"), "w") as f:
+        f.write("\n".join(progs) + "\n")
+    rc, out = run_side(MODEL, "summary", os.path.join(d, "p.sexp"), os.path.join(d, "p.ocaml"))
+    res = {"programs": len(progs), "agree": 0, "problems": []}
+    if rc != 0:
+        res["problems"].append("extracted summary failed: " + out[-200:])
+    else:
+        oc = [l.strip() for l in open(os.path.join(d, "p.ocaml"))]
+        agree = 0
+        for lo in range(0, len(progs), 50):
+            chunk = progs[lo:lo + 50]
+            v = "From SA Require Import Model.\nFrom SA.Mon Require Import Summary.\nLocal Open Scope list_scope.\n"
+            for i, pr in enumerate(chunk):
+                v += "Definition p%d : program := %s.\n" % (i, tocoq.program(pr))
+            v += "Eval vm_compute in (map (fun p => summary (run p)) [%s]).\n" % "; ".join("p%d" % i for i in range(len(chunk)))
+            cf = os.path.join(d, "cases%d.v" % lo)
+            with open(cf, "w") as f:
+                f.write(v)
+            rc, cout = sh("timeout 900 coqc -q -Q . SA %s -o %s.vo" % (cf, cf[:-2]), 1000, cwd=COQ)
+            try:
+                body = cout[cout.index("= [[") + 2: cout.rindex(": list")]
+                rows = [" ".join(x.replace(";", " ").split()) for x in re.findall(r"\[([0-9; \n]*)\]", body)]
+            except ValueError:
+                res["problems"].append("coqc cases: " + cout[-200:])
+                rows = []
+            for a, b in zip(rows, oc[lo:lo + 50]):
+                if a == b:
+                    agree += 1
+                elif len(res["problems"]) < 3:
+                    res["problems"].append("summary differs: coq=%s ocaml=%s" % (a[:80], b[:80]))
+            if len(rows) != len(chunk):
+                res["problems"].append("coqc printed %d rows for %d programs" % (len(rows), len(chunk)))
+        res["agree"] = agree
+    sh("rm -rf %s" % d, 60)
     with open(out_json, "w") as f:
         json.dump(res, f)
     return res
@@ -665,6 +714,9 @@ def check(prop, tier, seed):
         run = pipeline(seed, tier)
         for pr in run.problems:
             broken.append("pipeline:" + pr)
+        xc = extraction_crosscheck(run, 40 if tier == "quick" else 300)
+        if xc["problems"] or xc["agree"] != xc["programs"]:
+            broken.append("extraction cross-check: %s" % (xc["problems"][:1] or ["summaries differ"]))
         stats = props.analyse(prop, run)
         alarms, known_hits, disagreements = stats["alarms"], stats["known"], stats["disagreements"]
     if disagreements:
@@ -741,6 +793,7 @@ def check(prop, tier, seed):
         cov["cross"] = stats.get("cross", {})
         cov["stage"] = stats.get("stage", {})
         cov["exhaustive"] = False
+        cov["extraction_crosscheck"] = {"programs": xc["programs"], "vm_compute_equals_extracted": xc["agree"]}
         if tier == "thorough":
             ic = impl_coverage(run)
             if ic:
